@@ -5,6 +5,7 @@ its limit c as r → 0, and the real-number form of the hand model's `h1Series`.
 import EPV.Spec.Heat
 import EPV.Gen.Hutchens1N3
 import EPV.Tactics
+import EPV.Lemmas.Bridge.HeatTac
 
 set_option linter.all false
 
@@ -177,12 +178,19 @@ theorem h1N3_eq (p : Hutchens1N3.P) (r t : ℝ) :
     Hutchens1N3.temperature p r t
       = if r = 0 then h1AtZero p.Tb p.T0 else h1Series 3 (p.k / (p.rho * p.cp)) p.b p.Tb p.T0 r t := by
   rw [h1Series_eq, h1AtZero_real]
+  -- no leaf numbers: the traced test is decided from `hr` in whichever form the Python writes it
+  -- (`r != 0`, `r == 0`, `0 != r`), the selected leaf is unfolded through the simp set `epv_leaf`
   simp only [epv_tree, epv_cond]
   by_cases hr : r = 0
-  · simp only [hr, if_true, Hutchens1N3.L0.temperature]; ring
-  · simp only [hr, if_false, Hutchens1N3.L1.temperature, h1ser, Finset.sum_range_succ, Finset.sum_range_zero, h1K, h1c, sph]
+  · have hr' : (0 : ℝ) = r := hr.symm
+    subst hr
+    simp only [if_true, if_false, ne_eq, not_true_eq_false, not_false_eq_true, epv_leaf]
+    heat_eq
+  · have hr' : ¬ (0 : ℝ) = r := fun h => hr h.symm
+    simp only [hr, hr', if_true, if_false, ne_eq, not_true_eq_false, not_false_eq_true, epv_leaf, h1ser, Finset.sum_range_succ,
+      Finset.sum_range_zero, h1K, h1c, sph]
     push_cast
-    ring_nf
+    heat_eq
 
 
 end
